@@ -311,6 +311,7 @@ type Outcome struct {
 	Panicked   bool
 	PanicVal   string
 	TimedOut   bool
+	Skipped    bool // not run: an earlier run hung
 	LateRecs   int  // records returned after Next had returned false
 	ErrChanged bool // Err() changed after further Next calls
 	InScope    bool
@@ -438,14 +439,21 @@ func msgInScope(msg string) bool {
 }
 
 // Deadline for one parser run.
-var Deadline = 20 * time.Second
+var Deadline = 10 * time.Second
 
 // MaxRecs bounds the records kept in Events (all are counted in Recs).
 var MaxRecs = 1 << 20
 
+// Aborted is set once a run has hung (its goroutine keeps spinning): all
+// further runs are skipped so that the harness can report and exit.
+var Aborted bool
+
 // Run executes one configuration. extraNext further calls of Next are made
 // after the first one that returns false.
 func Run(c *Config, extraNext int) *Outcome {
+	if Aborted {
+		return &Outcome{Skipped: true}
+	}
 	o := &Outcome{InScope: true}
 	text := c.Text.Expand()
 	var lfs *LogFS
@@ -545,6 +553,7 @@ func Run(c *Config, extraNext int) *Outcome {
 	select {
 	case <-done:
 	case <-time.After(Deadline):
+		Aborted = true
 		o.TimedOut = true
 		o.Elapsed = time.Since(t0)
 		return o
